@@ -23,7 +23,8 @@ ForgeriesQuick == <<
   R(1, 8, 8, "payload", "ok", "none", 52),
   D(1, "bad", "ok", "none"),
   D(1, "keymismatch", "ok", "none"),
-  U(8, 9, "ok", "ok", "none", 45)
+  U(8, 9, "ok", "ok", "none", 45),
+  U(5, 4, "bad", "ok", "none", 48)     \* next commitment already consumed earlier in the chain
 >>
 
 ForgeriesMore == <<
@@ -42,8 +43,8 @@ ForgeriesMore == <<
 AlphaQuick    == LegitChain \o ForgeriesQuick
 AlphaThorough == LegitChain \o ForgeriesQuick \o SubSeq(ForgeriesMore, 1, 9)
 
-CoordsQuick    == {<<1, 0>>, <<1, 1>>, <<2, 0>>, <<3, 0>>}
-CoordsThorough == {<<1, 0>>, <<1, 1>>, <<2, 0>>, <<3, 0>>, <<3, 1>>}
+CoordsQuick    == {<<1, 0>>, <<2, 1>>, <<2, 2>>, <<3, 0>>}
+CoordsThorough == {<<1, 0>>, <<1, 1>>, <<2, 1>>, <<2, 2>>, <<3, 0>>}
 
 (* Non-triviality: some unauthorised operation in the store would change  *)
 (* the result if its signature / delta were genuine.                      *)
